@@ -101,7 +101,7 @@ class CreatePredictorBase(ASTNode):
             for key, value in self.using.items():
                 if isinstance(value, Object):
                     args = [
-                        f'{k}={json.dumps(v)}'
+                        f'{k}={json.dumps(v, ensure_ascii=False)}'
                         for k, v in value.params.items()
                     ]
                     args_str = ', '.join(args)
@@ -110,7 +110,7 @@ class CreatePredictorBase(ASTNode):
                     # USING key = identifier
                     value = value.to_string()
                 else:
-                    value = json.dumps(value)
+                    value = json.dumps(value, ensure_ascii=False)
 
                 using_ar.append(f'{Identifier(key).to_string()}={value}')
 
